@@ -1006,6 +1006,13 @@ func (vc *VC) loopHeader(li *loopInfo, b *ssa.BasicBlock, st *State, back map[[2
 					if !ok {
 						nix = ix
 					}
+					if cl, ok := vc.invariantCellLoad(li, nix, wr, nst); ok {
+						nix = cl
+						if vc.knownInvariant == nil {
+							vc.knownInvariant = map[string]bool{}
+						}
+						vc.knownInvariant[cl] = true
+					}
 					nw[nix] = true
 				}
 				wr[k] = nw
@@ -1032,6 +1039,7 @@ func (vc *VC) loopHeader(li *loopInfo, b *ssa.BasicBlock, st *State, back map[[2
 				for _, ix := range sortedKeys(wr[k]) {
 					f := vc.fresh("lhv", parts[1])
 					vc.setAt(nst, k, s, ix, f)
+					vc.heldAtIterationStart(li, k, parts[1], f)
 				}
 				continue
 			}
@@ -1051,13 +1059,21 @@ func (vc *VC) loopHeader(li *loopInfo, b *ssa.BasicBlock, st *State, back map[[2
 				vc.assume(fmt.Sprintf("(forall ((x Int)) (! (=> %s (= (select %s x) (select %s x))) :pattern ((select %s x))))", and(conds...), nw, old, nw))
 				continue
 			}
-			if strings.HasPrefix(s, "(Array Int ") && !hasEmpty(wr[k]) && len(vc.loopClauses(li, "writes_own_objects")) > 0 {
+			ownObjs := len(vc.loopClauses(li, "writes_own_objects")) > 0
+			loopObjs := len(vc.loopClauses(li, "writes_loop_objects")) > 0
+			if strings.HasPrefix(s, "(Array Int ") && !hasEmpty(wr[k]) && (ownObjs || loopObjs) {
 				// the body also writes objects reached through loop-carried variables: every such
 				// write is obliged (at the write) to hit an object that did not exist when the
-				// function was entered, so objects that did keep their values
+				// function was entered (writes_own_objects) / when the loop started (writes_loop_objects),
+				// so objects that did keep their values
 				old := vc.get(nst, k, s)
 				nw := vc.havoc(nst, k, s)
-				conds := []string{sx("is_old", "x")}
+				keep := "is_old"
+				if loopObjs {
+					vc.declarePre(li.ordinal)
+					keep = fmt.Sprintf("pre_L%d", li.ordinal)
+				}
+				conds := []string{sx(keep, "x")}
 				for _, ix := range sortedKeys(wr[k]) {
 					if vc.invariantIn(li, ix) {
 						conds = append(conds, not(sx("=", "x", ix)))
@@ -1071,14 +1087,37 @@ func (vc *VC) loopHeader(li *loopInfo, b *ssa.BasicBlock, st *State, back map[[2
 					vc.loopFrame[li] = map[string]bool{}
 				}
 				vc.loopFrame[li][k] = true
+				if vc.loopKeep == nil {
+					vc.loopKeep = map[*loopInfo]string{}
+				}
+				vc.loopKeep[li] = keep
 				continue
 			}
-			vc.havoc(nst, k, s)
+			nw := vc.havoc(nst, k, s)
+			if strings.HasPrefix(s, "(Array Int ") && (strings.HasPrefix(k, "F_") || strings.HasPrefix(k, "cell_") || strings.HasPrefix(k, "el_")) {
+				parts := splitSortArgs(s)
+				cur := vc.declareCur(li.ordinal)
+				switch parts[1] {
+				case "Int":
+					vc.assume(fmt.Sprintf("(forall ((x Int)) (! (%s (select %s x)) :pattern ((select %s x))))", cur, nw, nw))
+				case "Slice":
+					vc.assume(fmt.Sprintf("(forall ((x Int)) (! (%s (sl_ref (select %s x))) :pattern ((select %s x))))", cur, nw, nw))
+				case "Iface":
+					vc.assume(fmt.Sprintf("(forall ((x Int)) (! (%s (if_val (select %s x))) :pattern ((select %s x))))", cur, nw, nw))
+				}
+			}
 		}
 	}
 	// values computed before the loop refer to objects that existed when it started
 	{
 		pre := fmt.Sprintf("pre_L%d", li.ordinal)
+		// ... and so did everything this function allocated before the loop
+		for _, a := range vc.allocs {
+			if ab, ok := vc.allocBlock[a]; ok && !li.blocks[ab] {
+				vc.declarePre(li.ordinal)
+				vc.assume(sx(pre, a))
+			}
+		}
 		seen := map[ssa.Value]bool{}
 		for lb := range li.blocks {
 			for _, in := range lb.Instrs {
@@ -1155,6 +1194,81 @@ func (vc *VC) loopHeader(li *loopInfo, b *ssa.BasicBlock, st *State, back map[[2
 }
 
 var epochRefRe = regexp.MustCompile(`([A-Za-z_$][A-Za-z0-9_$.]*)@[0-9]+`)
+
+// invariantCellLoad: the index term names a value loaded inside the loop from a local variable's cell
+// that the loop never writes (the cell is an allocation of this function made outside the loop, and
+// every cell of that kind the loop does write is a different allocation or an object of the caller):
+// the load yields the same value in every iteration, namely the cell's content at the loop head.
+func (vc *VC) invariantCellLoad(li *loopInfo, ix string, wr map[string]map[string]bool, st *State) (string, bool) {
+	v, ok := vc.staticVals()[ix]
+	if !ok {
+		return "", false
+	}
+	u, ok := v.(*ssa.UnOp)
+	if !ok || u.Op != token.MUL || !li.blocks[u.Block()] {
+		return "", false
+	}
+	a, ok := u.X.(*ssa.Alloc)
+	if !ok || li.blocks[a.Block()] {
+		return "", false
+	}
+	at, ok := vc.vals[a]
+	if !ok {
+		return "", false
+	}
+	if _, isAlloc := vc.allocBlock[at.S]; !isAlloc {
+		return "", false
+	}
+	elem := a.Type().(*types.Pointer).Elem()
+	if subObject(elem) {
+		return "", false
+	}
+	cn, cs := vc.cellVar(elem)
+	for ix2 := range wr[cn] {
+		if ix2 == "" || ix2 == at.S {
+			return "", false
+		}
+		if _, isAlloc := vc.allocBlock[ix2]; !isAlloc && !loopInvariantTerm(ix2) {
+			return "", false
+		}
+	}
+	if wr["*"] != nil {
+		return "", false
+	}
+	return sx("select", vc.get(st, cn, cs), at.S), true
+}
+
+// staticVals: SMT constant name -> SSA value, for every value-defining instruction of the function.
+func (vc *VC) staticVals() map[string]ssa.Value {
+	if vc.staticV == nil {
+		vc.staticV = map[string]ssa.Value{}
+		for _, b := range vc.fn.Blocks {
+			for _, in := range b.Instrs {
+				if v, ok := in.(ssa.Value); ok {
+					vc.staticV[vc.valName(v)] = v
+				}
+			}
+		}
+	}
+	return vc.staticV
+}
+
+// heldAtIterationStart: whatever reference the heap holds when an iteration starts refers to an object
+// that existed at that moment, so it differs from everything the body allocates in this iteration.
+func (vc *VC) heldAtIterationStart(li *loopInfo, name, sortName, v string) {
+	if !(strings.HasPrefix(name, "F_") || strings.HasPrefix(name, "cell_") || strings.HasPrefix(name, "g_")) {
+		return
+	}
+	cur := vc.declareCur(li.ordinal)
+	switch sortName {
+	case "Int":
+		vc.assume(sx(cur, v))
+	case "Slice":
+		vc.assume(sx(cur, sx("sl_ref", v)))
+	case "Iface":
+		vc.assume(sx(cur, sx("if_val", v)))
+	}
+}
 
 // rebaseIndex rewrites references to epoch versions of state variables (name@N) in an index term
 // into the variables' terms at state st, provided the loop (write set wr) does not write them.
